@@ -68,7 +68,10 @@ func runC13(c *Ctx) {
 	p := c.P
 	// a debit exists exactly for the inputs that spend wallet credits: the loop that records them looks at every input
 	runLoopCompletenessN(c, "C13-R2", []string{"updateMinedBalance"}, 1)
+	checkCreditExistenceNotJudgedByAmount(c, "C13-R2")
 	checkScriptFetchKeyAndIndexAgree(c, "C13-R1")
+	checkBlockQualifiedLookupUsesWholeBlock(c, "C13-R2")
+	checkDebitIndexIsInputPosition(c, "C13-R1")
 	mined := wtxFn(c, "C13-R1", "minedTxDetails")
 	unmined := wtxFn(c, "C13-R1", "unminedTxDetails")
 	if mined != nil && unmined != nil {
@@ -601,4 +604,102 @@ func checkScriptFetchKeyAndIndexAgree(c *Ctx, rule string) {
 		}
 	}
 	c.Floor(rule, "previous-output script fetches", n, 3)
+}
+
+// checkBlockQualifiedLookupUsesWholeBlock: a transaction is reported "under the block that currently confirms it": a
+// detail lookup that is qualified with a block finds the record stored under exactly that block — height AND hash. The
+// record handed to the mined-details builder comes from a lookup that was given the caller's block (the key builders
+// take the whole block), not from a hash-only lookup filtered by height: after a reorganisation that re-mined the
+// transaction at the same height, the latter answers for a block that does not confirm it.
+func checkBlockQualifiedLookupUsesWholeBlock(c *Ctx, rule string) {
+	p := c.P
+	fn := wtxFn(c, rule, "UniqueTxDetails")
+	if fn == nil {
+		return
+	}
+	var blockPrm *ssa.Parameter
+	for _, prm := range fn.Params {
+		if strings.HasSuffix(prm.Type().String(), "wtxmgr.Block") {
+			blockPrm = prm
+		}
+	}
+	n := 0
+	for _, f := range p.regionOf(fn) {
+		for _, call := range callsNamed(f, "minedTxDetails") {
+			n++
+			ok := false
+			if blockPrm != nil {
+				for _, a := range call.Call.Args {
+					for _, o := range (&Slicer{P: p, KeepExtract: true}).Origins(a) {
+						ex, isEx := o.(*ssa.Extract)
+						if !isEx {
+							continue
+						}
+						if lc, isCall := ex.Tuple.(*ssa.Call); isCall {
+							for _, la := range lc.Call.Args {
+								if stripConv(p.resolveParam(la)) == ssa.Value(blockPrm) {
+									ok = true
+								}
+							}
+						}
+					}
+				}
+			}
+			c.Check(rule, "block-qualified-lookup-uses-whole-block", call.Pos(), ok,
+				"UniqueTxDetails builds the details of a mined transaction from a record that was not looked up under the caller's block (height and hash): asked about a competing block of the same height it reports the transaction under a block that does not confirm it")
+		}
+	}
+	c.Floor(rule, "mined-detail builds in UniqueTxDetails", n, 1)
+}
+
+// checkDebitIndexIsInputPosition: a debit record names the input of its own transaction that spends a wallet credit.
+// Where debits are built while ranging over the transaction's inputs, the index stored into the record is the loop's
+// position — not the index of the previous output the input refers to (another number of the same type that is at hand
+// in the same loop): with it the debit points at the wrong input whenever an output k is spent by an input other than k.
+func checkDebitIndexIsInputPosition(c *Ctx, rule string) {
+	p := c.P
+	n := 0
+	for _, fn := range p.FuncsIn("wtxmgr") {
+		loops := loopsOf(fn)
+		for _, b := range fn.Blocks {
+			for _, ins := range b.Instrs {
+				st, ok := ins.(*ssa.Store)
+				if !ok {
+					continue
+				}
+				fa, ok := st.Addr.(*ssa.FieldAddr)
+				if !ok {
+					continue
+				}
+				if tn, fld := fieldAddrName(fa); tn != "DebitRecord" || fld != "Index" {
+					continue
+				}
+				l := innermostLoopOf(loops, st)
+				if l == nil || !strings.Contains(l.Over, "TxIn") {
+					continue
+				}
+				n++
+				fromCounter, fromField := false, ""
+				v := stripConv(st.Val)
+				for depth := 0; depth < 4; depth++ {
+					if bo, isBo := v.(*ssa.BinOp); isBo && bo.Op == token.ADD {
+						v = stripConv(bo.X)
+						continue
+					}
+					break
+				}
+				if ph, isPhi := v.(*ssa.Phi); isPhi && l.Blocks[ph.Block()] {
+					fromCounter = true
+				}
+				for _, o := range (&Slicer{P: p}).Origins(st.Val) {
+					if _, f, _, okf := fieldOf(o); okf {
+						fromField = f
+					}
+				}
+				c.Check(rule, "debit-index-is-input-position:"+fn.Name(), st.Pos(), fromCounter && fromField == "",
+					fnName(fn)+" stores into a debit record an index that is not the position of the input in the loop over the transaction's inputs (it comes from field "+fromField+"): the debit names the wrong input of the transaction")
+			}
+		}
+	}
+	c.Floor(rule, "debit records built while ranging over the inputs", n, 2)
 }
